@@ -221,8 +221,10 @@ struct TInfo {
   uint64_t sub_inv = 0, sub_ret = 0, start = 0, end = 0, cb = 0;
   int starts = 0, cbs = 0, start_tid = -1, cb_tid = -1;
   long prio = 0; bool has_cb = false, accepted = false;
-  uint64_t cancel_ok = 0;       // seq of the cancel that returned 0
+  uint64_t cancel_ok = 0;       // seq of the return of the cancel that answered 0
+  uint64_t cancel_ok_inv = 0;   // seq of its invocation
   int epoch = 0;
+  uint64_t last_cancel_inv = 0;
 };
 
 #define S sim::fmt
@@ -264,8 +266,11 @@ void oracle(const Ctx &ctx, long kind) {
       TInfo &t = T[e.a];
       if (e.b == 0) {
         t.cancel_ok = e.seq;
+        t.cancel_ok_inv = t.last_cancel_inv;
         if (t.start) sim::violation("C05/cancel-ok-after-start", "cancel() returned 0 for a task whose body had already started");
       }
+    } else if (e.kind == H_CANCEL_INV) {
+      T[e.a].last_cancel_inv = e.seq;
     } else if (e.kind == H_SNAPSHOT) {
       if (e.a > e.b) sim::violation("C05/threads-exceed-max", S("snapshot reports %ld live threads, configured maximum %ld", e.a, e.b));
     }
@@ -325,7 +330,7 @@ void oracle(const Ctx &ctx, long kind) {
         if (!y.accepted || y.epoch != 0) continue;
         if (y.sub_ret == 0 || y.sub_ret >= bound) continue;           // not certainly queued when x was picked
         if (y.start && y.start < x.start) continue;                    // already picked
-        if (y.cancel_ok && y.cancel_ok < x.start) continue;            // cancelled (conservatively: any time before x started)
+        if (y.cancel_ok && y.cancel_ok_inv < x.start) continue;        // a successful cancel was in progress or done when x started
         if (!cleanups.empty() && cleanups[0].first && cleanups[0].first < x.start) continue;
         bool y_better = kind == 1 ? (y.sub_inv < x.sub_inv) : (y.prio < x.prio || (y.prio == x.prio && y.sub_inv < x.sub_inv));
         if (y_better) {
